@@ -11,4 +11,19 @@ CHECKS = {
     ),
 }
 
+CHECKS["C35"] = dict(
+    category="exploration",
+    technique="property-based testing: Hypothesis-generated faulted template sets, oracle = independent line arithmetic on the printed source vs. traceback / TemplateSyntaxError line",
+    text="Generated multi-template sets with exactly one runtime or syntax fault in a single-line tag under random nesting, multi-line neighbour tags, whitespace modifiers, three line-break forms, trim/lstrip, sync+async; the harness computes the fault's line by counting line breaks itself and requires the innermost template traceback frame (file and line) or TemplateSyntaxError.lineno/name/filename to match. 8k sets quick, 144k thorough; kills all six line-tracking mutants tried.",
+    note="Fault tags are single-line so the expected line is unambiguous; faults inside multi-line tags are not judged.",
+    design_ref="DESIGN.md §4 C35",
+)
+CHECKS["C38"] = dict(
+    category="fault_enumeration",
+    technique="fault injection over enumerated event points: Hypothesis-generated template sets over instrumented data, every k-th data event raises; oracle = object identity of the propagated exception + clean re-render equality",
+    text="For each generated template set (extends, import with and without context, include, macros, call/filter/set blocks, loops) a clean run counts the data events; every event index k (thorough: all; quick: up to 24 spread evenly) is then made to raise a fresh private exception and the exception leaving render/generate/stream/render_async/generate_async must be that very object; afterwards all templates are re-rendered cleanly on the same environment and must equal the clean outputs (catches half-initialised cached modules).",
+    note="Exception classes are private subclasses of Exception/ArithmeticError/RuntimeError; the documented lookup signals are never injected. Event order assumed deterministic (verified per case by running the clean render twice).",
+    design_ref="DESIGN.md §4 C38",
+)
+
 NOT_YET = "check not built yet in this session (see DESIGN.md §8 for the order of work)"
